@@ -136,3 +136,20 @@ package raft
 //@     invariant i >= 0 && rpcOK == old(rpcOK) && raftRmOK == old(raftRmOK) && (i == 0 || finalErr != nil)
 //@   modifies rpcN, rpcOK, rpcLastSvc, rpcLastMethod, rpcLastArg, raftRmOK, removeServerN
 
+
+// ---- C01: applying one committed operation ----
+// "pin inserts or replaces the entry for its CID, unpin deletes it ... Every applied change is handed
+// to the local pin tracker with the same CID, type, mode and allocations as stored"
+//@ func (op *LogOp) ApplyTo
+//@   property C01
+//@   requires op.Cid != nil
+//@   ensures [pin-inserts-or-replaces] old(op.Type) == LogOpPin && err == nil ==> haskey(pinset, old(op.Cid).Cid) && pinset[old(op.Cid).Cid] == *old(op.Cid)
+//@   ensures [pin-touches-nothing-else] old(op.Type) == LogOpPin ==> forall c cid.Cid :: c != old(op.Cid).Cid ==> (haskey(pinset, c) <==> haskey(old(pinset), c)) && pinset[c] == old(pinset)[c]
+//@   ensures [pin-handed-to-tracker] old(op.Type) == LogOpPin && err == nil ==> rpcN == old(rpcN) + 1 && rpcLastSvc == "PinTracker" && rpcLastMethod == "Track" && rpcLastArg == any(old(op.Cid))
+//@   ensures [unpin-deletes] old(op.Type) == LogOpUnpin && err == nil ==> !haskey(pinset, old(op.Cid).Cid)
+//@   ensures [unpin-touches-nothing-else] old(op.Type) == LogOpUnpin ==> forall c cid.Cid :: c != old(op.Cid).Cid ==> (haskey(pinset, c) <==> haskey(old(pinset), c)) && pinset[c] == old(pinset)[c]
+//@   ensures [unpin-handed-to-tracker] old(op.Type) == LogOpUnpin && err == nil ==> rpcN == old(rpcN) + 1 && rpcLastSvc == "PinTracker" && rpcLastMethod == "Untrack" && rpcLastArg == any(old(op.Cid))
+//@   ensures [unknown-type-is-ignored] old(op.Type) != LogOpPin && old(op.Type) != LogOpUnpin ==> pinset == old(pinset) && rpcN == old(rpcN)
+//@   ensures [failure-asks-for-rollback] err != nil ==> res == nil && rpcN == old(rpcN)
+//@   ensures [pin-object-untouched] forall p *api.Pin :: *p == old(*p)
+//@   modifies pinset, rpcN, rpcLastSvc, rpcLastMethod, rpcLastArg, heap(LogOp)
